@@ -322,5 +322,491 @@ def corr_matcher(ck, cs):
             matcher_case(cs, ck, patt, targ, set(tn) if scope is None else set(scope), 'rand')
 
 
+
+# --------------------------------------------------------------------------------------------------
+# real molecules
+
+SMALL_PATTERNS = ['C', 'N', 'O', 'CC', 'CO', 'C=O', 'CN', 'CCO', 'CC(C)C', 'C(=O)O', 'C(=O)N', 'c1ccccc1', 'c1ccncc1', 'C1CC1', 'C1CCCCC1',
+                  'cc', 'ccc', 'cO', 'cN', 'CF', 'CCl', 'S(=O)=O', 'C#N', 'C.C', 'C.O', 'CC.N', 'O.O', 'C.C.C', 'CO.CO', 'c1ccccc1.C',
+                  '[O-]', '[N+]', '[Na+].[O-]', 'C=C', 'CC=O', 'OCCO', 'NCC(=O)O', 'C1CCC1', 'c1ccc2ccccc2c1', 'CCCC', 'C(C)(C)(C)C']
+SMALL_TARGETS = ['C', 'CC', 'CCO', 'CC(=O)O', 'c1ccccc1', 'CC(C)C', 'C1CC1', 'C1CCC1', 'CCN', 'OCCO', 'C.C', 'C.O', 'CC.O', 'CO.CO', 'C.C.C',
+                 'CCO.CN', 'NCC(=O)O', 'C1CC1C', 'C=CC=C', 'c1ccncc1', 'C1CC1.C1CC1', '[Na+].[O-]C', 'CC(=O)[O-].[NH4+]', 'OO', 'N#N', 'C#CC',
+                 'FC(F)F', 'ClCCl', 'C1CC2CC12', 'C12CC1C2', 'CC(C)(C)C', 'C1=CC=C1', 'O=C=O', 'CS(C)=O', 'C[N+](C)(C)C', 'CCCCCCCC', 'C1CCCCCCC1',
+                 'c1ccccc1C', 'c1ccccc1O', 'CC.CC.CC', 'O.O.O.O', 'C1CC1.O.N']
+SMARTS = ['[C;D1]-[C;!R]=O', '[#6]-[#8]', '[O,N;D1]', 'c:c', '[C;D3](=O)[O;D1]', '[C;r6]', 'C-,=O', '[N;h2]', '[C;z2]', '[O;x1]', '[C;D1].[O;D1]',
+          '[#6]1:[#6]:[#6]:[#6]:[#6]:[#6]:1', '[C;a]', 'cO', '[A]-[A]', '[O,S;D2]', '[C;D2;!R]', '[C;r3]', '[N,O].[N,O]', '[#7]~[#6]', 'C=,#C',
+          '[C;h3]', '[c;D3]', '[A].[A]', '[F,Cl,Br,I]-c', '[C;D4]', '[#6]-[#6]-[#8]', '[C;r5,r6]', '[O;D1]=[C;D3]-[O,N]', '[A]1-[A]-[A]-1']
+
+
+def small_enough(gen, limit):
+    """the whole sequence when it has at most `limit` items, else None (case skipped: output too large to be worth printing)"""
+    out = list(itertools.islice(gen, limit + 1))
+    return out if len(out) <= limit else None
+
+
+def cut_pattern(rng, mol, size):
+    """connected random fragment of a molecule, as a new molecule (mol.substructure), sometimes renumbered"""
+    start = rng.choice(list(mol._atoms))
+    chosen = [start]
+    frontier = [m for m in mol._bonds[start]]
+    while frontier and len(chosen) < size:
+        x = frontier.pop(rng.randrange(len(frontier)))
+        if x in chosen:
+            continue
+        chosen.append(x)
+        frontier.extend(m for m in mol._bonds[x] if m not in chosen)
+    sub = mol.substructure(chosen)
+    if rng.random() < .5:
+        sub = corpus.renumber(sub, rng)
+    return sub
+
+
+def txt(m):
+    """SMILES of a molecule for messages ('' for the empty molecule, whose __str__ raises)"""
+    return str(m) if len(m) else ''
+
+
+def has_stereo(m):
+    return any(a.stereo is not None for _, a in m.atoms()) or any(bd.stereo is not None for *_, bd in m.bonds())
+
+
+def mol_pool(ck, n, maxatoms, salt):
+    from chython import smiles
+    out = []
+    for smi in corpus.sample(corpus.lipo(), 4 * n, ck.seed, salt):
+        try:
+            m = smiles(smi)
+        except Exception:  # noqa
+            continue
+        if m is not None and len(m) <= maxatoms:
+            out.append(m)
+        if len(out) >= n:
+            break
+    return out
+
+
+def mol_case(cs, ck, p, t, flt, scope, tag, limit=200):
+    got = None
+    err = None
+    try:
+        got = small_enough(p.get_mapping(t, automorphism_filter=flt, searching_scope=scope), limit)
+        if got is None:
+            ck.count(f'molecule:{tag}:skipped-too-many-mappings')
+            return
+    except Exception as e:  # noqa
+        err = exn_name(e)
+    tc = [sorted(c) for c in t.connected_components]
+    cs.add(f'pyres_eqb maps_eqb (mm_get_mapping {coqmol.mol_term(p)} {coqmol.mol_term(t)} {zll(tc)} {b(flt)} {scope_term(scope)}) {res_maps(got, err)}',
+           ('MoleculeContainer.get_mapping', tag, txt(p), txt(t), flt, scope))
+    ck.case(('mol', txt(p), tuple(p._atoms), txt(t), tuple(t._atoms), flt, None if scope is None else tuple(sorted(scope))), nontrivial=bool(got))
+    ck.count(f'molecule:{tag}:pcomps={min(p.connected_components_count, 3) if len(p) else 0}:tcomps={min(len(tc), 3)}:filter={int(flt)}:'
+             f'scope={"none" if scope is None else ("empty" if not scope else "set")}:{"err" if err else "hit" if got else "miss"}')
+
+
+def ops_case(cs, ck, p, t, tag):
+    """is_substructure / is_equal / < <= > >= against the model"""
+    tcp = [sorted(c) for c in p.connected_components]
+    tct = [sorted(c) for c in t.connected_components]
+    P, T = coqmol.mol_term(p), coqmol.mol_term(t)
+
+    def res(fn):
+        try:
+            return f'(Ok {b(fn())})'
+        except Exception as e:  # noqa
+            return f'(Err {exn_name(e)})'
+    for name, model, fn in (
+            ('is_substructure', f'mm_is_substructure {P} {T} {zll(tct)}', lambda: p.is_substructure(t)),
+            ('is_equal', f'mm_is_equal {P} {T} {zll(tct)}', lambda: p.is_equal(t)),
+            ('lt', f'mm_lt {P} {T} {zll(tct)}', lambda: p < t),
+            ('le', f'mm_is_substructure {P} {T} {zll(tct)}', lambda: p <= t),
+            ('gt', f'mm_lt {T} {P} {zll(tcp)}', lambda: p > t),
+            ('ge', f'mm_is_substructure {T} {P} {zll(tcp)}', lambda: p >= t)):
+        got = res(fn)
+        cs.add(f'pyres_eqb Bool.eqb ({model}) {got}', ('operator', name, tag, txt(p), txt(t)))
+        ck.case(('op', name, txt(p), tuple(p._atoms), txt(t), tuple(t._atoms)), nontrivial='true' in got)
+        ck.count(f'operator:{name}:{got.strip("()").replace("Ok ", "")}')
+
+
+def random_scope(rng, t):
+    r = rng.random()
+    if r < .5:
+        return None
+    if r < .56:
+        return []
+    return [x for x in list(t._atoms) + [10 ** 6] if rng.random() < .7]
+
+
+def corr_molecules(ck, cs):
+    from chython import smiles
+    from chython.containers import MoleculeContainer
+    rng = random.Random(f'{ck.seed}:mol')
+    n = 60 if ck.tier == 'quick' else 600
+    pool = mol_pool(ck, n, 32, 'c07-corr')
+    small = [smiles(x) for x in SMALL_PATTERNS]
+    for i, t in enumerate(pool):
+        # compiled query of the whole molecule (shape only: atoms and bonds are carried through)
+        comps, clo = t._compiled_query
+        sk = (f'(Ok ({lst([lst([tup(zraw(e[0]), opt(e[1], zraw)) for e in c]) for c in comps])}, '
+              f'{lst([tup(zraw(k), lst([zraw(m) for m, _ in v])) for k, v in clo.items()])}))')
+        cs.add(f'skel_eqb (skel (compile_query (m_atoms {coqmol.mol_term(t)}) (m_adj {coqmol.mol_term(t)}))) {sk}', ('_compiled_query', str(t)))
+        ck.case(('mol-cq', str(t), tuple(t._atoms)), nontrivial=True)
+        ck.count(f'molecule:compile_query:closures={min(sum(len(v) for v in clo.values()), 4)}')
+        for k in range(3):
+            p = cut_pattern(rng, t, rng.randint(2, 9))
+            mol_case(cs, ck, p, t, rng.random() < .5, random_scope(rng, t), 'cut')
+        for p in rng.sample(small, 3):
+            mol_case(cs, ck, p, t, rng.random() < .5, random_scope(rng, t), 'small')
+        # target with several components: this molecule plus another one (and a pattern with two components cut from both)
+        o = rng.choice(pool)
+        try:
+            two = smiles(str(t) + '.' + str(o))
+        except Exception:  # noqa
+            two = None
+        if two is not None and len(two) <= 40:
+            p1 = cut_pattern(rng, two, rng.randint(1, 4))
+            p2 = cut_pattern(rng, two, rng.randint(1, 4))
+            try:
+                pp = smiles(str(p1) + '.' + str(p2))
+            except Exception:  # noqa
+                pp = None
+            if pp is not None:
+                mol_case(cs, ck, pp, two, rng.random() < .5, random_scope(rng, two), 'two-components')
+            mol_case(cs, ck, rng.choice(small), two, rng.random() < .5, random_scope(rng, two), 'small-on-two')
+        if i % 4 == 0:
+            ops_case(cs, ck, cut_pattern(rng, t, rng.randint(1, 6)), t, 'cut')
+            ops_case(cs, ck, t, t.copy(), 'self')
+            ops_case(cs, ck, rng.choice(small), t, 'small')
+    # boundary: empty pattern / empty target
+    e = MoleculeContainer()
+    c = smiles('CO')
+    for p, t in ((e, c), (c, e), (e, e)):
+        for flt in (True, False):
+            mol_case(cs, ck, p, t, flt, None, 'empty')
+        ops_case(cs, ck, p, t, 'empty')
+
+
+def corr_smarts(ck, cs):
+    """query patterns (pure-Python path, _cython=False): atom and bond predicates enter the model as truth tables"""
+    from chython import smiles, smarts
+    rng = random.Random(f'{ck.seed}:smarts')
+    pool = mol_pool(ck, 25 if ck.tier == 'quick' else 250, 30, 'c07-smarts')
+    pool += [smiles(x) for x in ('CC(=O)O', 'CCO.CN', 'c1ccccc1O', 'C1CC1C(=O)N', 'OCC(O)CO.O')]
+    qs = []
+    for s in SMARTS:
+        try:
+            q = smarts(s)
+        except Exception:  # noqa
+            continue
+        if any(getattr(a, 'stereo', None) is not None for a in q._atoms.values()):
+            continue
+        qs.append((s, q))
+    for t in pool:
+        tb_id = {}
+        for n, ms in t._bonds.items():
+            for m in ms:
+                tb_id.setdefault(frozenset((n, m)), len(tb_id) + 1)
+        for s, q in rng.sample(qs, 4):
+            qb_id = {}
+            for n, ms in q._bonds.items():
+                for m in ms:
+                    qb_id.setdefault(frozenset((n, m)), len(qb_id) + 1)
+            atab = [(qn, tn) for qn, qa in q._atoms.items() for tn, ta in t._atoms.items() if qa == ta]
+            btab = [(qb_id[qk], tb_id[tk]) for qk in qb_id for tk in tb_id
+                    if q._bonds[min(qk)][max(qk)] == t._bonds[min(tk)][max(tk)]]
+            flt = rng.random() < .5
+            scope = random_scope(rng, t)
+            got = small_enough(q.get_mapping(t, automorphism_filter=flt, searching_scope=scope, _cython=False), 200)
+            if got is None:
+                ck.count('smarts:skipped-too-many-mappings')
+                continue
+            tc = [sorted(c) for c in t.connected_components]
+            qat = lst([tup(zraw(n), zraw(n)) for n in q._atoms])
+            qbt = lst([tup(zraw(n), lst([tup(zraw(m), zraw(qb_id[frozenset((n, m))])) for m in ms])) for n, ms in q._bonds.items()])
+            tat = lst([tup(zraw(n), zraw(n)) for n in t._atoms])
+            tbt = lst([tup(zraw(n), lst([tup(zraw(m), zraw(tb_id[frozenset((n, m))])) for m in ms])) for n, ms in t._bonds.items()])
+            pr = lambda tab: lst([tup(zraw(x), zraw(y)) for x, y in tab])
+            cs.add(f'pyres_eqb maps_eqb (tab_get_mapping {pr(atab)} {pr(btab)} {qat} {qbt} {tat} {tbt} {zll(tc)} {b(flt)} {scope_term(scope)}) '
+                   f'(Ok {maps_term(got)})', ('QueryContainer.get_mapping(_cython=False)', s, str(t), flt, scope))
+            ck.case(('smarts', s, str(t), flt, None if scope is None else tuple(sorted(scope))), nontrivial=bool(got))
+            ck.count(f'smarts:pcomps={min(len(q._compiled_query[0]), 3)}:{"hit" if got else "miss"}')
+
+
+def corr_automorphism(ck, cs):
+    from chython import smiles
+    from chython.algorithms.isomorphism import _get_automorphism_mapping
+    rng = random.Random(f'{ck.seed}:auto')
+    seeds = ['CC', 'CCC', 'C1CC1', 'c1ccccc1', 'CC(C)C', 'C.C', 'CC.CC', 'CC.OO', 'CC.O', 'C1CC1.C1CC1', 'OCCO', 'FC(F)F', 'CC(C)(C)C', 'C',
+             'CCO', 'c1ccc(C)cc1', 'O=C=O', 'C1CCC1', 'ClC(Cl)C(Cl)Cl', 'CC.CC.O', 'C1CC1.CC', 'N#N', 'OO.C', 'C[N+](C)(C)C', 'CCCC']
+    mols = [smiles(x) for x in seeds] + mol_pool(ck, 30 if ck.tier == 'quick' else 300, 26, 'c07-auto')
+    for m in mols:
+        atoms = dict(m._chiral_morgan)
+        got = small_enough(m.get_automorphism_mapping(), 150)
+        if got is None:
+            ck.count('automorphism:skipped-too-many-mappings')
+            continue
+        bonds = {n: {k: int(bd) for k, bd in ms.items()} for n, ms in m._bonds.items()}
+        # _chiral_morgan may hold the atoms in another order than _atoms: the model is given exactly that dict
+        cs.add(f'pyres_eqb maps_eqb (get_automorphism_mapping Z.eqb {zpairs(atoms)} {zadj(bonds)}) (Ok {maps_term(got)})',
+               ('get_automorphism_mapping', str(m)))
+        ck.case(('auto', str(m), tuple(m._atoms)), nontrivial=bool(got))
+        ck.count(f'automorphism:molecule:comps={min(m.connected_components_count, 3)}:{"some" if got else "none"}')
+    # the function itself on integer-labelled graphs (classes given directly)
+    for _ in range(100 if ck.tier == 'quick' else 1500):
+        atoms, bonds = random_graph(rng, 6, labels=(1, 2), orders=(1, 2))
+        got, err = drain(_get_automorphism_mapping(atoms, bonds))
+        cs.add(f'pyres_eqb maps_eqb (get_automorphism_mapping Z.eqb {zpairs(atoms)} {zadj(bonds)}) {res_maps(got, err)}',
+               ('_get_automorphism_mapping', atoms, bonds))
+        ck.case(('auto-int', repr(atoms), repr(bonds)), nontrivial=bool(got))
+        ck.count(f'automorphism:int-graph:{"err" if err else "some" if got else "none"}')
+
+
+def correspondence(ck):
+    cs = Cases()
+    corr_lazy_product(ck, cs)
+    corr_compile(ck, cs)
+    corr_matcher(ck, cs)
+    corr_molecules(ck, cs)
+    corr_smarts(ck, cs)
+    corr_automorphism(ck, cs)
+    ok, failing, log = coqcases.run_cases('c07', 'Iso Graph', cs.exprs, shard=250)
+    good = ok and not failing
+    ck.oblige('correspondence: lazy_product, _compile_query, _get_mapping, Isomorphism._get_mapping (sequence of mappings, order included), '
+              'operators, _get_automorphism_mapping == Coq model', good, 'correspondence', log or str([cs.meta[i] for i in failing[:5]]))
+    ck.extra['correspondence_cases'] = len(cs.exprs)
+    for i in (0, len(cs.exprs) // 3, len(cs.exprs) // 2, len(cs.exprs) - 40):
+        ck.sample({'model_call': cs.exprs[i][:1500], 'meta': repr(cs.meta[i])[:600]})
+    if not good:
+        ck.unchecked('correspondence Iso model vs chython/algorithms/isomorphism.py + chython/_functions.py', log[-1500:],
+                     [repr(cs.meta[i])[:800] for i in failing[:20]])
+    return good, [cs.meta[i] for i in failing]
+
+
+# --------------------------------------------------------------------------------------------------
+# search: brute-force reference enumerator on the real code
+
+def own_components(bonds):
+    comp = {}
+    for s in bonds:
+        if s in comp:
+            continue
+        comp[s] = s
+        todo = [s]
+        while todo:
+            x = todo.pop()
+            for y in bonds[x]:
+                if y not in comp:
+                    comp[y] = s
+                    todo.append(y)
+    return comp
+
+
+def brute(p, t, scope=None):
+    """every map the property statement allows, by exhaustive backtracking over injective assignments (independent of the
+    matcher: no linear order, no closures, no component splitting)"""
+    pa = list(p._atoms)
+    ta = [n for n in t._atoms if scope is None or n in scope]
+    pc = own_components(p._bonds)
+    tcmp = own_components(t._bonds)
+    out = []
+    f = {}
+
+    def ok(x, y):
+        if not (p._atoms[x] == t._atoms[y]):
+            return False
+        for x2, y2 in f.items():
+            qb = p._bonds[x].get(x2)
+            ob = t._bonds[y].get(y2)
+            if pc[x] == pc[x2]:
+                if tcmp[y] != tcmp[y2]:   # one pattern component lies in one target component (follows from connectivity)
+                    return False
+                if (qb is None) != (ob is None):
+                    return False
+                if qb is not None and not (qb == ob):
+                    return False
+            elif tcmp[y] == tcmp[y2]:
+                return False
+        return True
+
+    def rec(i):
+        if i == len(pa):
+            out.append(dict(f))
+            return
+        x = pa[i]
+        for y in ta:
+            if y in f.values():
+                continue
+            if ok(x, y):
+                f[x] = y
+                rec(i + 1)
+                del f[x]
+    rec(0)
+    return out
+
+
+def brute_isomorphic(p, t):
+    """same structure: a bijection preserving atoms and bonds in both directions"""
+    if len(p) != len(t):
+        return False
+    pa = list(p._atoms)
+    ta = list(t._atoms)
+    f = {}
+
+    def rec(i):
+        if i == len(pa):
+            return True
+        x = pa[i]
+        for y in ta:
+            if y in f.values() or not (p._atoms[x] == t._atoms[y]):
+                continue
+            good = True
+            for x2, y2 in f.items():
+                qb = p._bonds[x].get(x2)
+                ob = t._bonds[y].get(y2)
+                if (qb is None) != (ob is None) or (qb is not None and not (qb == ob)):
+                    good = False
+                    break
+            if good:
+                f[x] = y
+                if rec(i + 1):
+                    return True
+                del f[x]
+        return False
+    return rec(0)
+
+
+def key_of(m):
+    return tuple(sorted(m.items()))
+
+
+def search_pair(ck, p, t, rng, ptxt, ttxt, query=False):
+    kw = {'_cython': False} if query else {}
+    mk = ("from chython import smiles, smarts; from chython.containers import MoleculeContainer; "
+          f"p={('smarts(%r)' if query else 'smiles(%r)') % ptxt if ptxt else 'MoleculeContainer()'}; t=smiles({ttxt!r}); ")
+    ref = brute(p, t)
+    refset = {key_of(m) for m in ref}
+    ck.case(('search', ptxt, ttxt), nontrivial=bool(ref))
+    ck.count(f'search:{"query" if query else "molecule"}:embeddings={min(len(ref), 6)}' + ('+' if len(ref) >= 6 else ''))
+    # (1) without the filter: exactly the embeddings, each once
+    try:
+        got = list(p.get_mapping(t, automorphism_filter=False, **kw))
+    except Exception as e:  # noqa
+        ck.counterexample('empty-pattern' if not len(p) else f'raises:{ptxt}>{ttxt}', f'get_mapping raises {type(e).__name__}',
+                          {'pattern': ptxt, 'target': ttxt}, type(e).__name__, f'{len(ref)} mapping(s)', 'brute-force enumeration of injective maps',
+                          replay_py=mk + 'print(list(p.get_mapping(t, automorphism_filter=False)))')
+        return
+    gotkeys = [key_of(m) for m in got]
+    if set(gotkeys) != refset or len(gotkeys) != len(set(gotkeys)):
+        ck.counterexample(f'mappings:{ptxt}>{ttxt}', 'get_mapping(automorphism_filter=False) is not exactly the set of valid embeddings',
+                          {'pattern': ptxt, 'target': ttxt}, sorted(gotkeys), sorted(refset), 'brute-force enumeration of injective maps',
+                          replay_py=mk + f'print(list(p.get_mapping(t, automorphism_filter=False{", _cython=False" if query else ""})))')
+    # (2) with the filter: one mapping per distinct set of image atoms, none lost
+    got = list(p.get_mapping(t, automorphism_filter=True, **kw))
+    images = [frozenset(m.values()) for m in got]
+    if any(key_of(m) not in refset for m in got) or len(images) != len(set(images)) or set(images) != {frozenset(m.values()) for m in ref}:
+        ck.counterexample(f'filter:{ptxt}>{ttxt}', 'automorphism filter loses / duplicates an image set',
+                          {'pattern': ptxt, 'target': ttxt}, sorted(map(sorted, images)), sorted({tuple(sorted(m.values())) for m in ref}),
+                          'brute-force enumeration of injective maps',
+                          replay_py=mk + f'print(list(p.get_mapping(t{", _cython=False" if query else ""})))')
+    # (3) scope: exactly the embeddings inside it
+    atoms = list(t._atoms)
+    for scope in ([x for x in atoms if rng.random() < .6], [x for x in atoms if rng.random() < .3] + [10 ** 6], []):
+        refs = {key_of(m) for m in brute(p, t, set(scope))}
+        got = list(p.get_mapping(t, automorphism_filter=False, searching_scope=scope, **kw))
+        gk = [key_of(m) for m in got]
+        if set(gk) != refs or len(gk) != len(set(gk)):
+            ck.counterexample('scope-empty' if not scope else f'scope:{ptxt}>{ttxt}:{scope}',
+                              'searching_scope does not return exactly the embeddings inside the scope' +
+                              (' (an EMPTY scope is falsy in `if searching_scope:` and searches everything)' if not scope else ''),
+                              {'pattern': ptxt, 'target': ttxt, 'scope': scope}, sorted(gk), sorted(refs),
+                              'brute-force enumeration of injective maps into the scope',
+                              replay_py=mk + f'print(list(p.get_mapping(t, searching_scope={scope!r}, automorphism_filter=False{", _cython=False" if query else ""})))')
+    if query:
+        return
+    # (4) operators
+    sub = bool(ref)
+    iso_ = brute_isomorphic(p, t)
+    rev = None
+    for name, fn, want in (('is_substructure', lambda: p.is_substructure(t), sub), ('<=', lambda: p <= t, sub),
+                           ('<', lambda: p < t, sub and len(p) < len(t)), ('is_equal', lambda: p.is_equal(t), iso_),
+                           ('>=', lambda: t >= p, sub), ('>', lambda: t > p, sub and len(p) < len(t))):
+        try:
+            v = fn()
+        except Exception as e:  # noqa
+            v = type(e).__name__
+        if v is not want:
+            ck.counterexample(f'operator:{name}:{ptxt}>{ttxt}', f'{name} disagrees with the set of embeddings', {'pattern': ptxt, 'target': ttxt, 'op': name},
+                              v, want, 'brute-force enumeration', replay_py=mk + 'print(p.is_substructure(t), p.is_equal(t), p < t, p <= t)')
+
+
+def search(ck):
+    from chython import smiles, smarts
+    from chython.containers import MoleculeContainer
+    rng = random.Random(f'{ck.seed}:search')
+    targets = [(x, smiles(x)) for x in SMALL_TARGETS]
+    # fragments of corpus molecules, alone and in pairs (several components), at most 8 atoms
+    pool = mol_pool(ck, 40 if ck.tier == 'quick' else 400, 40, 'c07-search')
+    for m in pool:
+        f1 = cut_pattern(rng, m, rng.randint(3, 8))
+        if has_stereo(f1):
+            continue
+        txt = str(f1)
+        if rng.random() < .3:
+            f2 = cut_pattern(rng, rng.choice(pool), rng.randint(1, 8 - min(len(f1), 7)))
+            if not has_stereo(f2) and len(f1) + len(f2) <= 8:
+                txt = txt + '.' + str(f2)
+        try:
+            t = smiles(txt)
+        except Exception:  # noqa
+            continue
+        if t is not None and 0 < len(t) <= 8:
+            targets.append((txt, t))
+    patterns = [(x, smiles(x)) for x in SMALL_PATTERNS if len(smiles(x)) <= 6]
+    npairs = 0
+    # the two recorded findings first, on minimal inputs: an empty scope, and the empty pattern (exactly one, empty, embedding)
+    search_pair(ck, smiles('C'), smiles('CCO'), rng, 'C', 'CCO')
+    search_pair(ck, MoleculeContainer(), smiles('CO'), rng, '', 'CO')
+    for ttxt, t in targets:
+        if has_stereo(t):
+            continue
+        mine = rng.sample(patterns, 4 if ck.tier == 'quick' else 12)
+        # patterns cut from the target itself (always a hit) and the target itself
+        for _ in range(2):
+            c = cut_pattern(rng, t, rng.randint(1, 5))
+            mine.append((str(c), smiles(str(c))))
+        mine.append((ttxt, smiles(ttxt)))
+        for ptxt, p in mine:
+            if has_stereo(p):
+                continue
+            search_pair(ck, p, t, rng, ptxt, ttxt)
+            npairs += 1
+        for s in rng.sample(SMARTS, 2 if ck.tier == 'quick' else 6):
+            try:
+                q = smarts(s)
+            except Exception:  # noqa
+                continue
+            search_pair(ck, q, t, rng, s, ttxt, query=True)
+            npairs += 1
+    ck.extra['search_pairs'] = npairs
+
+
 def run(ck):
-    pass
+    ck.trusted += ['correspondence runner harness/checks/C07.py + harness/coqcases.py + harness/coqmol.py', 'CachedMethods shim harness/boot.py',
+                   'CPython 3.12.1', 'brute-force reference enumerator in harness/checks/C07.py (search only)']
+    ck.assumptions += [
+        'coq/model/Iso.v is a hand-written model of lazy_product, _compile_query, _get_mapping (recursive form of the explicit-stack loop), '
+        'Isomorphism._get_mapping, is_substructure/is_equal/</<= and _get_automorphism_mapping; the tie is the correspondence of the whole '
+        'SEQUENCE of mappings (order included) on exhaustive small graphs, generated pairs and corpus molecules',
+        'atom / bond match are parameters of the theorems (C08 supplies them); other.connected_components (set order) is an input of the model',
+        'a target whose _atoms/_bonds are inconsistent makes the Python matcher raise KeyError where the model rejects the candidate: a '
+        'container cannot hold such dictionaries', 'the stereo filter of QueryIsomorphism.get_mapping and the Cython path are out of scope (C09)']
+    ck.extra['rule'] = ('correspondence: lazy_product on all lists of <=3 lists of <=3 elements + random; _compile_query on all graphs of <=4 nodes '
+                        '(two insertion orders), sampled 5-node graphs, random graphs, malformed dicts; _get_mapping on all connected patterns '
+                        '<=3 nodes x all targets <=4 nodes; the wrapper on all patterns <=3 nodes x targets <=4 nodes (quick: a sample) and random '
+                        'labelled pairs with scopes and both filter values; corpus molecules with patterns cut by mol.substructure, small patterns, '
+                        'two-component patterns/targets; SMARTS through truth tables; automorphism mappings.  non-trivial = at least one mapping. '
+                        'search: brute force over all injective maps, targets <= 8 atoms; non-trivial = at least one embedding exists')
+    proved = common.standard_proof_steps(ck, translators=[])   # no generated tables: the model is hand-written
+    tied, failing = correspondence(ck)
+    search(ck)
+    ck.extra['proved'] = proved
+    ck.extra['tied'] = tied
